@@ -105,7 +105,16 @@ def _cond_block(rng, namer, depth, budget, branch_dag=False, blocks=None, allow_
             else:
                 _find(branch_nodes + nodes, prev_exit).setdefault("children", []).append(cur_in)
             prev_exit = cur_out
-        if branch_dag and rng.random() < 0.7 and not _find(branch_nodes, first).get("conditional"):
+        if branch_dag and rng.random() < 0.35 and not _find(branch_nodes, first).get("conditional"):
+            # an ASYMMETRIC branch DAG: two paths of different length from the entry re-join through ordinary nodes, and one
+            # node hangs below the longer path only:  first -> a -> m ;  first -> b -> b2 -> {m, side} ;  m -> x ; side -> x
+            na, nb, b2, m, side, x = (namer() for _ in range(6))
+            budget[0] -= 6
+            branch_nodes += [_node(na, [m]), _node(nb, [b2]), _node(b2, [m, side]), _node(m, [x]), _node(side, [x]), _node(x)]
+            _find(branch_nodes, first).setdefault("children", []).extend([na, nb])
+            _find(branch_nodes + nodes, prev_exit).setdefault("children", []).append(x) if prev_exit != first else None
+            prev_exit = x
+        elif branch_dag and rng.random() < 0.7 and not _find(branch_nodes, first).get("conditional"):
             # the branch becomes a small DAG with ONE entry and ONE exit (the join
             # is released by any one parent, so each branch must reach it through a
             # single edge): entry -> {.., extra} -> new exit.
@@ -326,6 +335,8 @@ def gen_clockwork_world(seed, index, **over):
                 {"name": "RAM", "quantity": rng.randint(3, 8)}]})
         cluster.append({"name": f"Pool_{p}", "workers": workers})
     nmodels = rng.randint(1, 3) if not over.get("tied") else rng.randint(2, 3)
+    if over.get("tight_memory"):
+        nmodels = 3 + (index % 2)
     profiles = []
     for m in range(nmodels):
         sizes = rng.choice([[1], [1, 2], [1, 2, 4], [2, 4], [1, 4]])
@@ -339,13 +350,38 @@ def gen_clockwork_world(seed, index, **over):
             # not both fit when they are applied, and the batch's placement is retried by the simulator
             for e in ex:
                 e["resource_requirements"]["RAM:any"] = 1
+        # the order in which a model lists its strategies is free: smallest batch first (as drawn), largest first, shuffled
+        lrng = random.Random(seed_int("strategy-listing", seed, index, m))
+        how = lrng.choice(["asis", "asis", "reversed", "reversed", "shuffled"])
+        if how == "reversed":
+            ex.reverse()
+        elif how == "shuffled":
+            lrng.shuffle(ex)
         profiles.append({"name": f"M{m}",
                          "loading_strategies": [{"batch_size": 1, "runtime": rng.randint(0, 3),
                                                  "resource_requirements": {"RAM:any": rng.randint(1, 3)}}],
                          "execution_strategies": ex})
+        if lrng.random() < 0.4:
+            # a second way to load the model: more memory, loads faster (or the other way round)
+            first = profiles[-1]["loading_strategies"][0]
+            more = lrng.random() < 0.5
+            profiles[-1]["loading_strategies"].append(
+                {"batch_size": 1, "runtime": max(0, first["runtime"] + (-1 if more else 2)),
+                 "resource_requirements": {"RAM:any": max(1, first["resource_requirements"]["RAM:any"] + (2 if more else -1))}})
+            if lrng.random() < 0.5:
+                profiles[-1]["loading_strategies"].reverse()
     graphs = []
-    for g in range(rng.randint(1, 3) if not over.get("tied") else nmodels):
-        model = rng.choice(profiles)["name"] if not over.get("tied") else profiles[g]["name"]
+    if over.get("tight_memory"):
+        # memory for one or two models at a time only: the policy has to evict to serve the other models
+        need = max(max(ls["resource_requirements"]["RAM:any"] for ls in p["loading_strategies"]) for p in profiles)
+        trng = random.Random(seed_int("tight-memory", seed, index))
+        for pool in cluster:
+            for wkr in pool["workers"]:
+                for r in wkr["resources"]:
+                    if r["name"] == "RAM":
+                        r["quantity"] = need + trng.choice([0, 1, 2])
+    for g in range((rng.randint(1, 3) if not over.get("tight_memory") else nmodels) if not over.get("tied") else nmodels):
+        model = rng.choice(profiles)["name"] if not (over.get("tied") or over.get("tight_memory")) else profiles[g]["name"]
         if rng.random() < 0.25:
             nodes = [_node("n1", ["n2"], work_profile=model), _node("n2", work_profile=rng.choice(profiles)["name"])]
             shape = "chain"
@@ -382,6 +418,10 @@ def gen_clockwork_world(seed, index, **over):
             gd["graph"] = [_node("n1", work_profile=gd["graph"][0]["work_profile"])]
         for prof in profiles[1:]:
             prof["execution_strategies"] = [dict(e) for e in profiles[0]["execution_strategies"]]
+    if over.get("runtime_scale"):
+        for prof in profiles:
+            for e in prof["execution_strategies"]:
+                e["runtime"] *= over["runtime_scale"]
     if over.get("small_burst"):
         # a burst small enough for the size-limited solver licences: one worker, one or two models, three to five requests
         # per model released together with equal deadlines and not enough room to run them all at once (used with the
@@ -528,6 +568,10 @@ def gen_world(seed, index, profile="greedy", **over):
     if small:
         # every microsecond of a planner run may cost a solver call: keep the horizon short
         timeout = min(timeout, 4 * total + 60, 400)
+    if over.get("tight_timeout"):
+        # a loop timeout that falls INSIDE the run: tasks are running, scheduled or still to be released when it strikes
+        trng = random.Random(seed_int("tight-timeout", seed, index, profile))
+        timeout = max(4, int(total * trng.uniform(0.1, 0.7)))
     flags["loop_timeout"] = over.get("loop_timeout", timeout)
     world = {
         "seed": seed, "index": index, "profile": profile,
@@ -535,7 +579,7 @@ def gen_world(seed, index, profile="greedy", **over):
         "fmt": rng.choice(["yaml", "yaml", "json"]),
         "meta": {"feasible_intent": feasible, "shapes": [g["shape"] for g in graphs], "listing": [g["listing"] for g in graphs],
                  "blocks": {g["name"]: g["blocks"] for g in graphs},
-                 "zero_runtime": zero_rt},
+                 "zero_runtime": zero_rt, "tight_timeout": bool(over.get("tight_timeout"))},
     }
     world["meta"]["all_fit"] = all(
         any(strategy_fits_empty(s, cluster) for s in p["execution_strategies"]) for p in profiles)
